@@ -278,6 +278,33 @@ class Gen:
             k = self.sessions.get(s, (0, True))[0]
             self.objects[r['h']] = {'tok': k, 'token': None, 'private': None, 'label': None}
 
+    def op_crosslogout(self):
+        """directed (C14 / C19 / C11): the normal user is logged in on two tokens, each has private session and token objects;
+        one token logs out (or closes all its sessions): the OTHER token's objects, handles and searches are untouched"""
+        if self.ntok < 2 or any(k not in self.user for k in (0, 1)):
+            return
+        ss = {}
+        for k in (0, 1):
+            q = self.emit('open t%d rw' % k)
+            if not q.get('h'):
+                return
+            ss[k] = q['h']
+            self.sessions[q['h']] = (k, True)
+            self.emit('login %s 1 %s' % (q['h'], self.user[k]))
+            for (tok, priv) in ((0, 1), (1, 1), (0, 0)):
+                lab = self.new_label()
+                r = self.emit('create %s 0=u:0 1=b:%d 2=b:%d 3=x:%s 0x11=x:%s' % (q['h'], tok, priv, lab, lab))
+                if r.get('h'):
+                    self.objects[r['h']] = {'tok': k, 'token': bool(tok), 'private': bool(priv), 'label': lab}
+        a = self.r.randrange(2)
+        self.emit(self.r.choice(['logout %s' % ss[a], 'logout %s' % ss[a], 'closeall t%d' % a]))
+        b = 1 - a
+        self.emit('sinfo %s' % ss[b])
+        self.emit('findinit %s %s' % (ss[b], self.r.choice(['', '2=b:1', '1=b:0'])))
+        self.emit('findseq %s %s' % (ss[b], self.r.choice(['2000', '1 2 2000', '3 2000'])))
+        self.emit('findfinal %s' % ss[b])
+        self.op_probe()
+
     def op_copyflip(self):
         """directed (C11 / C01): a copy whose privacy or storage differs from its source, then a logout / close, then every
         handle is probed: a handle lives and dies with the object it denotes, not with the one it was copied from"""
@@ -453,11 +480,11 @@ class Gen:
         'objects': [('matrix', 6), ('open', 10), ('close', 5), ('closeall', 2), ('login', 12), ('logout', 5), ('create', 22), ('destroy', 7),
                     ('getattr', 12), ('setattr', 7), ('copy', 7), ('find', 10), ('sinfo', 2), ('restart', 2), ('inittoken', 1), ('copyflip', 3)],
         'handles': [('open', 14), ('close', 10), ('closeall', 3), ('login', 10), ('logout', 6), ('create', 20), ('destroy', 8),
-                    ('copy', 5), ('find', 8), ('probe', 12), ('restart', 1), ('copyflip', 5)],
+                    ('copy', 5), ('find', 8), ('probe', 12), ('restart', 1), ('copyflip', 5), ('crosslogout', 3)],
         'find': [('open', 8), ('close', 3), ('login', 10), ('logout', 4), ('create', 30), ('destroy', 6), ('find', 30), ('setattr', 4),
-                 ('copy', 4), ('restart', 2), ('closeall', 1)],
+                 ('copy', 4), ('restart', 2), ('closeall', 1), ('crosslogout', 3)],
         'tokens': [('inittoken', 14), ('open', 12), ('close', 6), ('closeall', 4), ('login', 12), ('logout', 5), ('create', 14), ('destroy', 4),
-                   ('find', 8), ('getattr', 5), ('restart', 8), ('initpin', 4), ('setpin', 4), ('sinfo_all', 10), ('sinfo', 6)],
+                   ('find', 8), ('getattr', 5), ('restart', 8), ('initpin', 4), ('setpin', 4), ('sinfo_all', 10), ('sinfo', 6), ('crosslogout', 4)],
         'persist': [('create', 25), ('destroy', 8), ('setattr', 6), ('copy', 6), ('restart', 12), ('close', 5), ('closeall', 3), ('open', 8),
                     ('login', 8), ('logout', 4), ('find', 12), ('getattr', 8)],
         'pins': [('open', 12), ('close', 5), ('login', 30), ('logout', 10), ('initpin', 10), ('setpin', 15), ('inittoken', 5), ('restart', 8),
